@@ -99,6 +99,71 @@ pub fn run(tier: Tier, seed: u64) -> i32 {
     });
     b.exhaustive = true;
     rep.add(b);
+    // FAT32 files that live in the highest clusters of the volume (cluster numbers above 65535: the first cluster needs
+    // both words of the directory entry): emptied, closed, reopened, written again, with another file next to them
+    if !rep.failed() {
+        let mut vols: Vec<VolCfg> = Vec::new();
+        for (p, hi) in [(12usize, 40u16), (12, 0), (13, 25), (13, 0)] {
+            let mut v = VolCfg::from_preset(p);
+            v.free_lo = Some(0);
+            // hi = 0: the free space begins exactly at cluster 65536 (0x1_0000), so the first file created owns the
+            // cluster whose number is what a stale high word alone would spell
+            v.free_hi = if hi != 0 {
+                hi
+            } else {
+                let maxc = crate::vol::make_device(&VolCfg::from_preset(p)).ok().and_then(|d| d.with_store(|st| crate::refdec::Geom::parse(st)).ok()).map_or(0, |g| g.max_cluster());
+                if maxc < 65_600 {
+                    continue;
+                }
+                (maxc - 65_536 + 1) as u16
+            };
+            vols.push(v);
+        }
+        let hp_ref = &hp;
+        let hb = run::run_indexed("files_in_the_highest_clusters_emptied_and_rewritten", (vols.len() * 3) as u64, |i, blk| {
+            let v = &vols[i as usize / 3];
+            let variant = i % 3;
+            let cs = v.cluster_size();
+            let of = |p: &str, k: u8| Op::OpenFile { via: 0, path: p.into(), keep: k };
+            let mut ops = vec![
+                Op::CreateFile { via: 0, path: "victim.bin".into(), keep: 2 },
+                Op::Write { h: 1, len: cs, seed: 9 },
+                Op::Write { h: 1, len: 7, seed: 8 },
+                Op::CloseFile { h: 1 },
+                Op::CreateFile { via: 0, path: "emptied.bin".into(), keep: 1 },
+                Op::Write { h: 0, len: cs, seed: 1 },
+                Op::Write { h: 0, len: cs, seed: 2 },
+                Op::Write { h: 0, len: 5, seed: 3 },
+                Op::CloseFile { h: 0 },
+                of("emptied.bin", 1),
+            ];
+            match variant {
+                0 => ops.extend([Op::Truncate { h: 0 }, Op::CloseFile { h: 0 }]),
+                1 => ops.extend([Op::Seek { h: 0, whence: 0, off: cs as i64 }, Op::Truncate { h: 0 }, Op::Seek { h: 0, whence: 0, off: 0 }, Op::Truncate { h: 0 }, Op::CloseFile { h: 0 }]),
+                _ => ops.extend([Op::Truncate { h: 0 }, Op::Flush { h: 0 }, Op::Read { h: 0, len: 10 }, Op::CloseFile { h: 0 }, Op::Remount { how: 0 }]),
+            }
+            ops.extend([
+                of("emptied.bin", 1),
+                Op::Read { h: 0, len: 10 },
+                Op::Write { h: 0, len: 20, seed: 4 },
+                Op::Write { h: 0, len: cs, seed: 5 },
+                Op::CloseFile { h: 0 },
+                of("victim.bin", 1),
+                Op::Read { h: 0, len: cs },
+                Op::Read { h: 0, len: 7 },
+                Op::CloseFile { h: 0 },
+                of("emptied.bin", 1),
+                Op::Read { h: 0, len: cs },
+                Op::Read { h: 0, len: cs },
+                Op::CloseFile { h: 0 },
+            ]);
+            let case = Case { vol: v.clone(), ops };
+            let out = hist::eval_case(hp_ref, &case);
+            blk.record(&out, || serde_json::json!({"vol": v, "variant": variant}));
+            out.violation.map(|m| run::Failure { message: m, case: serde_json::to_value(&case).unwrap(), kind: "history".into() })
+        });
+        rep.add(hb);
+    }
     if !rep.failed() {
         rep.add(hist::random_block(&hp, "random_histories", seed, tier.pick(hp.quick_cases, hp.thorough_cases)));
     }
